@@ -101,7 +101,7 @@ def integral_matching_reference_stretch(x, y, x_ref, y_ref, fixed_points_in_x=No
         fixed_points_in_x = x.take(fixed_points_indices_in_x)
         fixed_points_in_x_ref = x_ref.take(
             find_closest_element_indices_to_values(x_ref, fixed_points_in_x, strategy='closest'))
-        fixed_points_in_x_ref_indices = np.where(np.in1d(x_ref, fixed_points_in_x_ref))[0]
+        fixed_points_in_x_ref_indices = np.where(np.isin(x_ref, fixed_points_in_x_ref))[0]
     else:
         if fixed_points_in_x is None:
             fixed_points_in_x = x.take(
@@ -113,10 +113,10 @@ def integral_matching_reference_stretch(x, y, x_ref, y_ref, fixed_points_in_x=No
             fixed_points_in_x = np.unique(fixed_points_in_x)
             fixed_points_in_x_ref = x_ref.take(
                 find_closest_element_indices_to_values(x_ref, fixed_points_in_x, strategy='closest'))
-            fixed_points_in_x_ref_indices = np.where(np.in1d(x_ref, fixed_points_in_x_ref))[0]
+            fixed_points_in_x_ref_indices = np.where(np.isin(x_ref, fixed_points_in_x_ref))[0]
 
         # get indices of elements in x that should be fixed
-        fixed_points_indices_in_x = np.where(np.in1d(x, fixed_points_in_x))[0]
+        fixed_points_indices_in_x = np.where(np.isin(x, fixed_points_in_x))[0]
 
     if len(fixed_points_in_x) >= len(x) + 1 / 2:
         warnings.warn("Integral matching may work not as expected when number of fixed points is higher than"
